@@ -63,7 +63,15 @@ class SymScheduler:
     def order(self, n):
         k = self.nrun
         self.nrun += 1
-        if self.study != 'all' and k != self.study:
+        if isinstance(self.study, tuple) and k == 0:
+            # ('all', j): first pool run completes in the j-th permutation
+            # (the 'all' case split into n! independent jobs)
+            import itertools
+            o = list(list(itertools.permutations(range(n)))[self.study[1]])
+            self.orders.append(o)
+            return o
+        if not isinstance(self.study, tuple) and self.study != 'all' \
+                and k != self.study:
             o = list(range(n))[::-1]
             self.orders.append(o)
             return o
@@ -255,6 +263,7 @@ def differs(c, got, want):
 def case_mode(case):
     """case = (nsrc, nfreq, tqdm on/off, file mode on/off, study run)."""
     nsrc, nfreq, use_tqdm, use_files, study = case[:5]
+    is_all = study == 'all' or isinstance(study, tuple)
     gridding = case[5] if len(case) > 5 else 'same'
     E = shadow.load()
     c = set_ctx(Ctx(timeout_ms=60000))
@@ -326,9 +335,10 @@ def case_mode(case):
                      "initial guess)")
             par = pools > 0
             branches.add(par)
-            if study == 'all':
+            if is_all:
                 oshow = [o for o in orders]
-                okey = tuple(map(tuple, orders[:3]))
+                okey = tuple(map(tuple, orders if isinstance(study, tuple)
+                                 else orders[:3]))
             else:
                 oshow = orders[study] if len(orders) > study else []
                 okey = tuple(oshow)
@@ -351,12 +361,18 @@ def case_mode(case):
                          tqdm=use_tqdm, files=use_files, parallel=par,
                          gridding=gridding,
                          order=[int(i) for i in (
-                             (oshow[0] if study == 'all' else oshow)
-                             if par and oshow else [])], study=study)
+                             (oshow[0] if is_all else oshow)
+                             if par and oshow else [])],
+                         study='all' if is_all else study)
                 if d else None))
         ntask = nsrc*nfreq
         import math
-        nexp = math.factorial(ntask)**(3 if study == 'all' else 1)
+        if isinstance(study, tuple):
+            # every pool run of the scenario but the first is symbolic
+            npool = max([len(k) for k in seen_orders] or [1])
+            nexp = math.factorial(ntask)**(npool-1)
+        else:
+            nexp = math.factorial(ntask)**(3 if is_all else 1)
         ok = (True in branches and False in branches and
               len(seen_orders) == nexp)
         obs.append(ob(
@@ -693,16 +709,21 @@ def main(tier):
                  (1, 2, False, False, 0, 'dict1')]
     else:
         shapes = [(3, 1), (1, 3), (2, 2)]
-        # (all 6^3 combinations of completion orders of the three pool
-        # runs: 216 paths, one configuration)
-        extra = [(3, 1, False, True, 'all')]
+        # every combination of completion orders of ALL pool runs of the
+        # scenario (seven of them: 2^7 paths for two tasks, split by the
+        # order of the first run into two jobs per configuration); for
+        # three tasks 6^7 paths are out of reach - there each pool run is
+        # studied on its own (n! orders, the cases below)
+        extra = [(2, 1, tq, fl, ('all', j)) for j in range(2)
+                 for tq, fl in ((False, True), (True, False))]
         extra += [(2, 1, tq, fl, st, 'dict') for tq in (False, True)
                   for fl in (False, True) for st in (0, 1, 2)]
     cases = [(ns, nf, tq, fl, st) for ns, nf in shapes
              for tq in (False, True) for fl in (False, True)
              for st in (0, 1, 2)] + extra
     # longest first
-    cases.sort(key=lambda x: -(x[0]*x[1]+(10 if x[4] == 'all' else 0)))
+    cases.sort(key=lambda x: -(x[0]*x[1]+(
+        10 if isinstance(x[4], tuple) else 0)))
     jobs = [('case_mode', x) for x in cases]
     jobs += [('case_slots', sh) for sh in
              ([(2, 2)] if tier == 'quick' else [(2, 2), (3, 2), (2, 3)])]
@@ -710,12 +731,16 @@ def main(tier):
     run.add(obs)
     run.bounds = dict(
         tasks_per_pool_run=sorted({x[0]*x[1] for x in cases}),
+        # (survey_shapes below: sources x frequencies)
         survey_shapes=sorted({(x[0], x[1]) for x in cases}),
         gridding="'same' and 'dict' (source-dependent computational grids "
         "of different size, model volume-averaged to them)",
         max_workers="symbolic integer 1..16", completion_orders="all n! of "
         "the pool run under study (forward compute / back-propagation / "
-        "J v), the other pool runs complete in reverse submission order",
+        "J v), the other pool runs complete in reverse submission order" + (
+            "" if tier == 'quick' else "; plus, for two tasks, every "
+            "combination of completion orders of all pool runs of the "
+            "scenario"),
         modes="in-memory and file-based, with and without tqdm",
         problem="4x4x3 grid, VTI, Resistivity, 2 receivers, tol != "
         "tol_gradient")
